@@ -101,3 +101,11 @@ pub open spec fn full_log(ctx: Seq<TEvent>, hc: CP, gc: Seq<CP>, n: usize, t: us
     let l3 = log_rounds(l2, pr.li@, pr.ri@, k);
     log_responses(log_final(l3, pr.a1, pr.b), pr.r1, pr.s1, pr.d1@)
 }
+// log_rounds only reads the first k entries of the L/R sequences
+pub proof fn lemma_log_rounds_prefix(log: Seq<TEvent>, li: Seq<CP>, ri: Seq<CP>, k: nat, n: nat)
+    requires k <= n <= li.len(), n <= ri.len()
+    ensures log_rounds(log, li, ri, k) == log_rounds(log, li.take(n as int), ri.take(n as int), k)
+    decreases k
+{
+    if k > 0 { lemma_log_rounds_prefix(log, li, ri, (k - 1) as nat, n); }
+}
